@@ -167,8 +167,8 @@ theorem urlsplit_assemble_gen (env : Env) {nl p q : Str}
   rw [hck]
 
 /-- bracketed counterpart of `parse_canonical`: `gemini://[H][:port]path[?query]` is accepted and parses
-    to exactly (H, port, path, query) with itself as its normal form, when `H` contains `:` -/
-theorem parse_canonical_br (env : Env) {H p q : Str} (hH : BrHost env H) (hcol : ':' ∈ H) (n : Nat) (hn : n ≤ 65535)
+    to exactly (H, port, path, query) with itself as its normal form -/
+theorem parse_canonical_br (env : Env) {H p q : Str} (hH : BrHost env H) (n : Nat) (hn : n ≤ 65535)
     (ht : PlainTail p q) :
     parseUrl env (assemble (authorityOf (brk H) n) p q) =
       .ok ⟨H, n, p, q, assemble (authorityOf (brk H) n) p q⟩ := by
@@ -207,9 +207,13 @@ theorem parse_canonical_br (env : Env) {H p q : Str} (hH : BrHost env H) (hcol :
   have hport : (if n ≠ 1965 then some n else none : Option Nat).getD 1965 = n := by
     by_cases h : n = 1965 <;> simp [h]
   simp only [hport, hpne, Bool.false_eq_true, ↓reduceIte]
-  have hrb : rebracket H = brk H := by
-    unfold rebracket brk
-    rw [if_pos (contains_true hcol)]
+  have hrb : rebracket (authorityOf (brk H) n) H = brk H := by
+    have hat : '@' ∉ authorityOf (brk H) n := fun h => (brAuth_chars hH n _ h).2.1 rfl
+    have hhp : hostPart (authorityOf (brk H) n) = authorityOf (brk H) n := by
+      unfold hostPart; rw [rsplitOnce_none hat]
+    unfold rebracket
+    rw [hhp, if_pos (contains_true (by rw [brAuth_form]; simp))]
+    rfl
   rw [hrb]
   have hauth : (if n ≠ 1965 then brk H ++ [':'] ++ natToStr n else brk H) = authorityOf (brk H) n := rfl
   rw [hauth]
